@@ -184,7 +184,7 @@ def run(ctx):
         'with FIPS 180-4 values recomputed from the primes; the buffered-length invariant of the bundled update '
         'functions is proved with linear facts; narrowing casts at the backend boundary are listed.  The digest '
         'arithmetic itself is declined.')
-    ck.declined += ['numerical equality of digests (arithmetic of the compression functions, padding)']
+    ck.declined += ['numerical equality of digests (arithmetic of the compression functions)']
     configs = ['main', 'openssl-deprecated', 'bundled-hash']
     tables = {}
     for config in configs:
@@ -271,6 +271,91 @@ def run(ctx):
             ck.ob('C18-b', 'R8.constants', 'sha1.c', 'SHA1 round constants', ks <= consts,
                   'SHA1_Transform uses the four standard round constants' if ks <= consts else
                   'SHA1_Transform: missing %s' % sorted(hex(x) for x in ks - consts), st.file, st.line, config=config)
+            # ---- e  finalisation layout, for every possible number of buffered bytes
+            from ..rules.layout import LayoutInterp, Ptr, check_padding
+            SINKS = {'SHA1_Transform': (1, 64, None), 'sha256_transf': (1, 64, 2), 'sha512_transf': (1, 128, 2)}
+            FINALS = (
+                # function, context parameter, length cell, scale, extra cells, buffer, block, length field
+                ('SHA1_Final', 'context', 'count[0]', 8, {'count[1]': 0}, 'buffer', 64, 8),
+                ('sha256_final', 'ctx', 'len', 1, {}, 'block', 64, 8),
+                ('sha512_final', 'ctx', 'len', 1, {}, 'block', 128, 16),
+            )
+            for sname in SINKS:
+                prog.need_func(sname)
+            for fname, cparam, cell, scale, extra, buf, block, lenfield in FINALS:
+                f = prog.need_func(fname)
+                ck.require(any(p_.op == cparam for p_ in f.params), '%s: context parameter %s not found' % (fname, cparam))
+                bad = None
+                shapes = set()
+                runs = 0
+                for r in range(block):
+                    for hi in ((0, 1) if scale == 8 else (0,)):       # bit counter: two representatives mod 512
+                        it = LayoutInterp(prog, SINKS)
+                        it.scalars['ctx.' + cell] = r * scale + hi * block * scale
+                        for k_, v_ in extra.items():
+                            it.scalars['ctx.' + k_] = v_
+                        it.regions['ctx.' + buf] = dict((i, ('M', i)) for i in range(r))
+                        it.invoke(f, ['ctx' if p_.op == cparam else Ptr('digest', 0) for p_ in f.params])
+                        runs += 1
+                        ok, msg = check_padding(it.stream, r, block, lenfield)
+                        if not ok and bad is None:
+                            bad = (r, msg)
+                        shapes.add(msg if ok else 'bad')
+                ck.ob('C18-e', 'R9.layout', fname, 'padding', bad is None,
+                      'for each of the %d possible buffered lengths the compression function receives message, 0x80, zeros '
+                      'and a %d-byte length, ending on the first block boundary that fits (%d interpretations)' % (
+                          block, lenfield, runs) if bad is None else
+                      'with %d byte(s) buffered: %s' % bad, f.file, f.line, config=config,
+                      sample={'function': fname, 'buffered': block - 1, 'layout': sorted(shapes)[-1]})
+            # ---- f  update layout: what is compressed and what stays buffered, at the class boundaries of the length
+            UPDATES = (('SHA1_Update', 'context', 'count[0]', 8, {'count[1]': 0}, 'buffer', 64),
+                       ('sha256_update', 'ctx', 'len', 1, {'tot_len': 0}, 'block', 64),
+                       ('sha512_update', 'ctx', 'len', 1, {'tot_len': 0}, 'block', 128))
+            for fname, cparam, cell, scale, extra, buf, block in UPDATES:
+                f = prog.need_func(fname)
+                bad = None
+                runs = 0
+                for r in range(block):
+                    lens = set([0, 1, 2, block, block + 1, 2 * block, 3 * block + 5])
+                    for d in (-2, -1, 0, 1, 2):
+                        for m in (1, 2):
+                            if m * block - r + d >= 0:
+                                lens.add(m * block - r + d)
+                    for n_ in sorted(lens):
+                        it = LayoutInterp(prog, SINKS)
+                        it.scalars['ctx.' + cell] = r * scale
+                        for k_, v_ in extra.items():
+                            it.scalars['ctx.' + k_] = v_
+                        it.regions['ctx.' + buf] = dict((i, ('M', i)) for i in range(r))
+                        it.regions['data'] = dict((i, ('D', i)) for i in range(n_))
+                        vals = []
+                        for p_ in f.params:
+                            t_ = (p_.dt or p_.t or '')
+                            vals.append('ctx' if p_.op == cparam else Ptr('data', 0) if t_.rstrip().endswith('*') else n_)
+                        it.invoke(f, vals)
+                        runs += 1
+                        whole = [('M', i) for i in range(r)] + [('D', i) for i in range(n_)]
+                        nblk = (r + n_) // block
+                        rest = (r + n_) % block
+                        left = it.scalars.get('ctx.' + cell)
+                        left = None if left is None else (left // scale) % block
+                        bufnow = [it.regions['ctx.' + buf].get(i) for i in range(rest)]
+                        why = None
+                        if it.stream != whole[:nblk * block]:
+                            why = 'the compression function received %d byte(s) that are not the first %d block(s) of ' \
+                                  'buffered + new data in order' % (len(it.stream), nblk)
+                        elif left != rest:
+                            why = 'the buffered count afterwards is %s, expected %d' % (left, rest)
+                        elif bufnow != whole[nblk * block:]:
+                            why = 'the bytes left in the buffer are not the unprocessed tail of the data'
+                        if why and bad is None:
+                            bad = (r, n_, why)
+                ck.ob('C18-f', 'R9.layout', fname, 'buffering', bad is None,
+                      'for every buffered length and update lengths at the class boundaries (0, 1, fill-2..fill+2, one and two '
+                      'blocks, 3 blocks+5): compressed blocks are buffered+new data in order, the tail stays buffered and the '
+                      'count is (buffered+len) mod %d (%d interpretations; the update length is sampled, not exhausted)' % (
+                          block, runs) if bad is None else
+                      'with %d byte(s) buffered and an update of %d byte(s): %s' % bad, f.file, f.line, config=config)
             # ---- d
             for fname, field, block in (('sha256_update', 'len', 64), ('sha512_update', 'len', 128)):
                 f = prog.need_func(fname)
@@ -298,6 +383,54 @@ CLAIM = {
 }
 
 MUTANTS = [
+    {'id': 'm18p', 'desc': 'sha256_final: second block chosen one byte too late', 'file': 'src/lib/hash/bundled/sha2/sha2.c',
+     'old': """    block_nb = (1 + ((SHA256_BLOCK_SIZE - 9)
+                     < (ctx->len % SHA256_BLOCK_SIZE)));
+
+    len_b = (ctx->tot_len + ctx->len) << 3;
+    pm_len = block_nb << 6;
+
+    memset(ctx->block + ctx->len, 0, pm_len - ctx->len);
+    ctx->block[ctx->len] = 0x80;
+    UNPACK32(len_b, ctx->block + pm_len - 4);
+
+    sha256_transf""", 'new': """    block_nb = (1 + ((SHA256_BLOCK_SIZE - 8)
+                     < (ctx->len % SHA256_BLOCK_SIZE)));
+
+    len_b = (ctx->tot_len + ctx->len) << 3;
+    pm_len = block_nb << 6;
+
+    memset(ctx->block + ctx->len, 0, pm_len - ctx->len);
+    ctx->block[ctx->len] = 0x80;
+    UNPACK32(len_b, ctx->block + pm_len - 4);
+
+    sha256_transf""", 'expect': 'R9.layout sha256_final'},
+    {'id': 'm18q', 'desc': 'SHA1_Final pads in one go with a length that is 0 at 56 mod 64 (seeded c18r2)',
+     'file': 'src/lib/hash/bundled/sha1/sha1.c',
+     'old': """        SHA1_Update(context, (sha1_byte *)"\\200", 1);
+        while ((context->count[0] & 504) != 448) {
+            SHA1_Update(context, (sha1_byte *)"\\0", 1);
+        }""", 'new': """        static const sha1_byte sha1_padding[SHA1_BLOCK_LENGTH] = { 0x80 };
+        j = (context->count[0] >> 3) & 63;
+        SHA1_Update(context, sha1_padding, (SHA1_BLOCK_LENGTH + 56 - j) & 63);""", 'expect': 'R9.layout SHA1_Final'},
+    {'id': 'n18q', 'desc': 'SHA1_Final pads in one go with the right length', 'file': 'src/lib/hash/bundled/sha1/sha1.c',
+     'old': """        SHA1_Update(context, (sha1_byte *)"\\200", 1);
+        while ((context->count[0] & 504) != 448) {
+            SHA1_Update(context, (sha1_byte *)"\\0", 1);
+        }""", 'new': """        static const sha1_byte sha1_padding[SHA1_BLOCK_LENGTH] = { 0x80 };
+        j = (context->count[0] >> 3) & 63;
+        SHA1_Update(context, sha1_padding, ((55 - j) & 63) + 1);""", 'expect': None},
+    {'id': 'm18u', 'desc': 'sha512_update copies the tail from the wrong offset', 'file': 'src/lib/hash/bundled/sha2/sha2.c',
+     'old': """    sha512_transf(ctx, shifted_message, block_nb);
+
+    rem_len = new_len % SHA512_BLOCK_SIZE;
+
+    memcpy(ctx->block, &shifted_message[block_nb << 7],""",
+     'new': """    sha512_transf(ctx, shifted_message, block_nb);
+
+    rem_len = new_len % SHA512_BLOCK_SIZE;
+
+    memcpy(ctx->block, &shifted_message[block_nb << 6],""", 'expect': 'R9.layout sha512_update'},
     {'id': 'm58', 'desc': 'bundled backend maps SHA-512/128 to SHA-256', 'file': 'src/lib/hash/bundled/libsha.c',
      'old': """        } else if(hash->type->type >= ZCK_HASH_SHA512 &&
                 hash->type->type <= ZCK_HASH_SHA512_128) {
